@@ -1,1 +1,40 @@
-From Coq Require Import ZArith.
+(* C04 — Each path is painted with what the register machine prescribes, or not at all.
+   Statements only; proofs in proofs/VMProofs.v.  The specification's machine is spec/VMSpec.v.
+   (NSTOPS < 2 is spec-silent: machine and model both skip the path — a stated modelling decision.) *)
+From Coq Require Import ZArith Bool List.
+From IVG Require Import SF NumCodec Color Calls Render Arc VMSpec RenderProofs VMProofs.
+Import ListNotations.
+Local Open Scope Z_scope.
+
+(* simulation: every register instruction commutes with the abstraction to the specification's machine *)
+Theorem renderer_refines_vm : forall s c, regs_ok s -> is_reg_op c = true ->
+  vm_eq (vabs (rstep32 s c)) (vm_step (vabs s) c) /\ regs_ok (rstep32 s c) /\ r_log (rstep32 s c) = r_log s.
+Proof. exact VMProofs.renderer_refines_vm. Qed.
+Print Assumptions renderer_refines_vm.
+
+Theorem reset_initial : forall s vb pal, length pal = 64%nat ->
+  vm_eq (vabs (rstep32 s (CReset vb pal))) (vm_reset (creg_fn pal)) /\ regs_ok (rstep32 s (CReset vb pal)).
+Proof. exact VMProofs.reset_initial. Qed.
+Print Assumptions reset_initial.
+
+(* the paint handed to the rasteriser is the machine's: LOD test against the raster height, flat colour,
+   gradient with valid stops, or nothing *)
+Theorem paint_is_prescribed : forall s adj x y,
+  paint_of s (rstep32 s (CStartPath adj x y)) = vm_paint (vabs s) adj (r_h s).
+Proof. exact VMProofs.paint_is_prescribed. Qed.
+Print Assumptions paint_is_prescribed.
+
+(* a skipped path causes no rasteriser activity at all, and drawing mode is still left at the end *)
+Theorem skipped_is_silent : forall s adj x y, vm_paint (vabs s) adj (r_h s) = VSkip ->
+  let s1 := rstep32 s (CStartPath adj x y) in
+  r_disabled s1 = true /\ r_log s1 = r_log s /\
+  (forall c, is_drawing c = true -> rstep32 s1 c = s1) /\
+  r_log (rstep32 s1 CEndPath) = r_log s.
+Proof. exact VMProofs.skipped_is_silent. Qed.
+Print Assumptions skipped_is_silent.
+
+Example ex_regs : regs_ok (rstep32 (rinit N32 0 0 8 8) (CReset default_viewbox default_palette)).
+Proof. apply reset_initial. reflexivity. Qed.
+Example ex_transparent_skipped :
+  vm_paint (mkVM (fun _ => mkRGBA 0 0 0 0) (fun _ => 0) 0 0 0 2139095040 (fun _ => mkRGBA 0 0 0 0)) 0 8 = VSkip.
+Proof. vm_compute. reflexivity. Qed.
